@@ -14,6 +14,7 @@ package main
 import (
 	"bufio"
 	"fmt"
+	"math"
 
 	"github.com/ctessum/geom"
 	"github.com/ctessum/geom/op"
@@ -204,5 +205,25 @@ func genGC(out *bufio.Writer, seed uint64, tier string) {
 			e := []int{-14, -20, -30, 20}[r.Intn(4)]
 			fmt.Fprintf(out, "opgc g %s\n", G(scaleGeom(g, e)))
 		}
+	}
+}
+
+// genGuardEdges: line strings whose largest coordinate difference m sits in the windows that the thresholds of
+// distPointToSegment's range guard (m >= 2^500, m <= 2^-500) protect with a wide margin: just below the magnitude where
+// the squares of the dot products overflow (2^511.5 <= m < 2^512), where they underflow to zero (m < 2^-537) or lose
+// their bits to subnormals (2^-537 .. 2^-511), and on either side of the thresholds themselves.  All coordinates are
+// small integer multiples of one power of two (exact for the judge).
+func genGuardEdges(out *bufio.Writer) {
+	G := func(g geom.Geom) string { return vproto.GeomToks(g) }
+	for _, c := range [][2]int{{3, 510}, {7, 509}, {13, 508}, {15, 508}, {11, 508}, {3, -539}, {5, -540}, {1, -538}, {7, -530}, {3, -520},
+		{3, 498}, {1, 500}, {1, 499}, {3, 499}, {1, -500}, {3, -502}, {1, -499}, {3, -501}} {
+		g := math.Ldexp(1, c[1])
+		f := float64(c[0]) * g
+		l := geom.LineString{{X: 0, Y: 0}, {X: f, Y: g}, {X: f, Y: -2 * g}}
+		for _, q := range []geom.Point{{X: g, Y: 2 * g}, {X: f + g, Y: g}, {X: -g, Y: g}, {X: 2 * g, Y: 0}, {X: f - g, Y: -g}, {X: f, Y: -3 * g}} {
+			fmt.Fprintf(out, "dist g %s %s %s\n", vproto.F2H(q.X), vproto.F2H(q.Y), G(l))
+			fmt.Fprintf(out, "dist g %s %s %s\n", vproto.F2H(q.X), vproto.F2H(q.Y), G(geom.MultiLineString{l[1:], l[:2]}))
+		}
+		fmt.Fprintf(out, "len g %s\n", G(l))
 	}
 }
